@@ -235,10 +235,17 @@ def effective_calls(facts, b, depth=0, seen=None):
 def find_sites(facts):
     """Bodies that decode a record header, classified by effect."""
     sites = {}
+    def add_owner(b, depth=0):
+        # a decoding helper introduced later stands for the functions that call it
+        if facts.is_new_helper(b.npath) and depth < 4:
+            for (cb, cbi, t2, nm2) in F.calls_to(facts, lambda n, _p=b.npath: n == _p):
+                add_owner(cb, depth + 1)
+            return
+        sites.setdefault(b.path, b)
     for (b, bi, t, name) in F.calls_to(facts, lambda n: n == FROM_BYTES):
         if b.npath.startswith("protocol::") or b.promoted:
             continue
-        sites.setdefault(b.path, b)
+        add_owner(b)
     out = {}
     for b in sites.values():
         calls = effective_calls(facts, b)
